@@ -68,6 +68,9 @@ func init() {
 		Rules:       []string{"E1", "E5.R-discard"},
 		Run: func(c *Ctx) {
 			RunE1(c, "C15", append(append([]Ob{}, obs...), sharedObs["C15"]...))
+			// the actor an exchanged token carries is the one the storage policy decided: no request type of the library itself
+			// implements TokenActorRequest (CreateJWT / CreateIDToken would overlay `act` from it on top of the storage's claims)
+			RunImplementers(c, "E7.te.actor-request-implementers", "op", "TokenActorRequest", []string{}, "a library type implementing TokenActorRequest makes the token creators set the registered act claim themselves, which overrides the actor the storage decided")
 			RunConstSlice(c, "E7.te.alltypes", "oidc", "AllTokenTypes", []string{"oidc.AccessTokenType", "oidc.RefreshTokenType", "oidc.IDTokenType", "oidc.JWTTokenType"})
 			RunDiscard(c, "C15", []string{"op"})
 		},
